@@ -371,7 +371,7 @@ struct Obs {
   uint64_t cross_host_updates = 0, unflagged_writes = 0;
   uint64_t net_msgs = 0, net_bytes = 0;
   uint64_t lists[5] = {0, 0, 0, 0, 0}; // mirror lists by the mode the automatic choice selects for their flagged share
-  uint64_t reset_mirror_calls = 0;
+  uint64_t reset_mirror_calls = 0, untouched_add_mirrors = 0;
 };
 
 } // namespace
@@ -476,12 +476,18 @@ int main(int argc, char** argv) {
       bool vertexCut = false, transposed = false;
       std::pair<unsigned, unsigned> grid{0, 0};
       uint64_t totalMirrors = 0;
+      double tPart = 0, tSub = 0, tRounds = 0;
       {
         // ---------------------------------------------------------------- partition + substrate (Start.h)
+        double t0  = now_s();
         GraphPtr g = doPartition(fG, fGT, pc);
         progress();
+        double t1 = now_s();
         Substrate sub(*g, net.ID, net.Num, g->isTransposed(), g->cartesianGrid(), agnostic, enforced);
         progress();
+        double t2 = now_s();
+        tPart = t1 - t0;
+        tSub  = t2 - t1;
         vertexCut  = g->is_vertex_cut();
         transposed = g->isTransposed();
         grid       = g->cartesianGrid();
@@ -516,6 +522,7 @@ int main(int argc, char** argv) {
 
         RoundCfg prev;
         bool prevOK = false;
+        double t3   = now_s();
         for (unsigned rd = 0; rd < nrounds && structureOK; ++rd) {
           // -------------------------------------------------------------- round configuration
           Rng rr(mix(rseed, rd));
@@ -797,6 +804,12 @@ int main(int argc, char** argv) {
                   ++O.cross_host_updates;
                 if (r.post.eq(expected, words))
                   continue;
+                // add protocol: the mirrors of a node nobody touched hold the identity; nothing about that node is
+                // flagged, so nothing travels unless every value does. Such a mirror may keep the identity.
+                if (i > 0 && F.red == R_ADD && contributors == 0 && r.post.eq(r.pre, words)) {
+                  ++O.untouched_add_mirrors;
+                  continue;
+                }
                 verdict = 0;
                 if (reported++ >= 3)
                   continue;
@@ -843,6 +856,7 @@ int main(int argc, char** argv) {
                       (c.async ? "A" : "") + (c.cont ? "c" : "") + "." + dnName(c.density);
           progress();
         }
+        tRounds = now_s() - t3;
         if (!structureOK && log)
           H.note("skipped", J().kv("why", "partition without exactly one master per node (C19's subject)").str());
         MPI_Barrier(g_comm);
@@ -865,14 +879,15 @@ int main(int argc, char** argv) {
             .kv("unmarked_writes", O.unflagged_writes).kv("nodes_written", O.nodes_written)
             .kv("multi_contribution_nodes", O.multi_contrib_nodes).kv("cross_host_updates", O.cross_host_updates)
             .kv("rank0_net_msgs", O.net_msgs).kv("rank0_net_bytes", O.net_bytes)
-            .kv("reset_mirrorField_calls", O.reset_mirror_calls).kv("mirror_proxies", totalMirrors)
+            .kv("reset_mirrorField_calls", O.reset_mirror_calls).kv("untouched_add_mirrors_at_identity", O.untouched_add_mirrors).kv("mirror_proxies", totalMirrors)
             .kv(("rounds_mode_" + std::string(modeName(mode))).c_str(), O.rounds)
             .kv("rank0_auto_lists_none", O.lists[0]).kv("rank0_auto_lists_bitset", O.lists[1])
             .kv("rank0_auto_lists_offsets", O.lists[2]).kv("rank0_auto_lists_dense", O.lists[4])
             .kv((std::string("cases_") + cls + (transposed ? "_transposed" : "")).c_str(), 1)
             .kv((std::string("cases_np") + std::to_string(np)).c_str(), 1)
             .kv((std::string("cases_policy_") + policyName(pc.policy)).c_str(), 1)
-            .kv("cases_agnostic", (int)agnostic);
+            .kv("cases_agnostic", (int)agnostic).kv("partition_wall_s", tPart).kv("substrate_wall_s", tSub)
+            .kv("rounds_wall_s", tRounds);
         H.end(k, sig, nontrivial, o.str());
       }
     }
